@@ -72,6 +72,9 @@ type response struct {
 	n   int
 	err error
 	idx int
+	// whose channel the granted receive is on (filled by the scheduler: tasks must not touch its maps)
+	actx *simCtx
+	atm  *Timer
 }
 
 type noteKind int
@@ -381,7 +384,12 @@ func (s *Sim) caseReady(c interface{}) bool {
 		if _, closed := s.closed[id]; closed {
 			return true // the real send panics, as it should
 		}
-		return v.Cap() > 0 && v.Len() < v.Cap()
+		if v.Cap() == 0 {
+			// a rendezvous needs two tasks at once, which the baton cannot express: never silently "not ready"
+			s.Machinery("select with a send on an unbuffered channel is not modelled")
+			return false
+		}
+		return v.Len() < v.Cap()
 	}
 	return s.chanRecvReady(c)
 }
@@ -463,6 +471,15 @@ func (s *Sim) grantable(t *Task) bool {
 	}
 }
 
+// ownerOf notes in t.resp whether ch is the done channel of a context or the channel of a timer.
+func (s *Sim) ownerOf(t *Task, ch interface{}) {
+	t.resp.actx, t.resp.atm = nil, nil
+	if id, _ := chanID(ch); id != 0 {
+		t.resp.actx = s.ctxByDone[id]
+		t.resp.atm = s.timerByChan[id]
+	}
+}
+
 // grant updates the models for the request being granted and fills t.resp.
 //
 //go:norace
@@ -484,6 +501,7 @@ func (s *Sim) grant(t *Task) string {
 			ls.readers++
 		}
 	case opSelect:
+		t.resp.actx, t.resp.atm = nil, nil
 		var ready []int
 		for i, c := range r.chans {
 			if s.caseReady(c) {
@@ -498,7 +516,10 @@ func (s *Sim) grant(t *Task) string {
 		if _, isSend := r.chans[t.resp.idx].(SendCase); isSend {
 			return fmt.Sprintf("case %d (send) of %v", t.resp.idx, ready)
 		}
+		s.ownerOf(t, r.chans[t.resp.idx])
 		return fmt.Sprintf("case %d of %v", t.resp.idx, ready)
+	case opRecv:
+		s.ownerOf(t, r.keep)
 	case opOnce:
 		os := s.onceOf(r.obj)
 		if os.done || os.running == t {
@@ -602,8 +623,10 @@ func (s *Sim) applyNote(t *Task, n *note) {
 	case noteOnceDone:
 		os := s.onceOf(n.obj)
 		os.done, os.running = true, nil
+		os.keep = n.keep
 	case noteWGAdd:
 		s.wgs[n.obj] += n.n
+		s.wgKeep[n.obj] = n.keep
 	case noteCondWait:
 		c := n.keep.(*Cond)
 		c.waiters = append(c.waiters, &condWaiter{t: t})
@@ -621,6 +644,7 @@ func (s *Sim) applyNote(t *Task, n *note) {
 type onceState struct {
 	done    bool
 	running *Task
+	keep    interface{} // the Once itself: its address must not be reused while the model knows it
 }
 
 func (s *Sim) onceOf(id uintptr) *onceState {
